@@ -96,15 +96,18 @@ class Src:
 
 def expect(src, fn, got, shapes):
     """got: list of normalised statements; shapes: list of (regex, ops or callable(match)->ops).
-    Every statement must match the shape at the same position (same count)."""
-    if len(got) != len(shapes):
-        src.err(fn, 'expected %d statements, found %d' % (len(shapes), len(got)), ' ;; '.join(got))
+    Every statement must match one of the function's shapes (ANY order, any count): the skeleton
+    follows the source's order, so a reordered / dropped / duplicated statement changes the
+    generated data (and breaks a proof) instead of stopping the translator."""
     ops = []
-    for g, (rx, o) in zip(got, shapes):
-        m = re.match('^(?:' + rx + ')$', g, re.S)
-        if not m:
-            src.err(fn, 'statement shape not recognised (wanted /%s/)' % rx, g)
-        ops += o(m) if callable(o) else o
+    for g in got:
+        for rx, o in shapes:
+            m = re.match('^(?:' + rx + ')$', g, re.S)
+            if m:
+                ops += o(m) if callable(o) else o
+                break
+        else:
+            src.err(fn, 'statement shape not recognised', g)
     return ops
 
 
@@ -156,19 +159,19 @@ def registry(repo, consts):
         src.err('Slot::new', 'result not an empty slot')
 
     bodies = {}
-    tail_impl = lambda callee: r'%s\(signal,(?:action|move\|_:&_\|action\(\))\)' % callee
-    for fn, callee, fid in (('register', 'register_sigaction_impl', 'FRegisterSigactionImpl'),
-                            ('register_sigaction', 'register_sigaction_impl', 'FRegisterSigactionImpl'),
-                            ('register_signal_unchecked', 'register_unchecked_impl', 'FRegisterUncheckedImpl'),
-                            ('register_unchecked', 'register_unchecked_impl', 'FRegisterUncheckedImpl')):
+    FID = {'register_sigaction_impl': 'FRegisterSigactionImpl', 'register_unchecked_impl': 'FRegisterUncheckedImpl'}
+    callrx = r'(register_sigaction_impl|register_unchecked_impl)\(signal,(?:action|move\|_:&_\|action\(\))\)'
+    wrapper_shapes = [
+        (callrx, lambda m: ['OCall ' + FID[m.group(1)]]),
+        (r'let r=' + callrx, lambda m: ['OCallBind ' + FID[m.group(1)]]),
+        (r'r', ['OReturnBound']),
+        (r'assert!\(!FORBIDDEN\.contains\(&signal\),.*\)', ['OAssertNotForbidden']),
+    ]
+    for fn in ('register', 'register_sigaction', 'register_signal_unchecked', 'register_unchecked', 'register_sigaction_impl'):
         sig, b = src.fn(fn)
         if not re.search(r'\(\s*signal\s*:\s*c_int\s*,\s*action\s*:\s*F\s*\)', sig):
             src.err(fn, 'signature not (signal: c_int, action: F)', sig)
-        bodies[fn] = expect(src, fn, [norm(x) for x in stmts(b)], [(tail_impl(callee), ['OCall ' + fid])])
-    _, b = src.fn('register_sigaction_impl')
-    bodies['register_sigaction_impl'] = expect(src, 'register_sigaction_impl', [norm(x) for x in stmts(b)], [
-        (r'assert!\(!FORBIDDEN\.contains\(&signal\),.*\)', ['OAssertNotForbidden']),
-        (tail_impl('register_unchecked_impl'), ['OCall FRegisterUncheckedImpl'])])
+        bodies[fn] = expect(src, fn, [norm(x) for x in stmts(b)], wrapper_shapes)
 
     _, b = src.fn('register_unchecked_impl')
     st = stmts(b)
@@ -197,25 +200,29 @@ def registry(repo, consts):
             pos += 1
     if inner[pos:].strip() or sorted(arms) != ['Occupied', 'Vacant']:
         src.err('register_unchecked_impl', 'match arms not {Occupied, Vacant}', norm(inner[pos:]))
-    occ = expect(src, 'register_unchecked_impl/Occupied', [norm(x) for x in stmts(arms['Occupied'][1])], [
-        (r'assert!\(%s\.get_mut\(\)\.actions\.insert\(id,action\)\.is_none\(\)\)' % arms['Occupied'][0], ['OAssertInsertFresh'])])
     q = lambda m, i=1: 'true' if m.group(i) else 'false'
-    vac = expect(src, 'register_unchecked_impl/Vacant', [norm(x) for x in stmts(arms['Vacant'][1])], [
+    arm_shapes = [
+        (r'assert!\(\w+\.get_mut\(\)\.actions\.insert\(id,action\)\.is_none\(\)\)', ['OAssertInsertFresh']),
         (r'globals\.race_fallback\.write\(\)\.store\(Some\(Prev::detect\(signal\)(\?)?\)\)',
          lambda m: ['OFallbackLock', 'ODetect ' + q(m), 'OFallbackStore']),
         (r'let mut slot=Slot::new\(signal\)(\?)?', lambda m: ['OSlotNew ' + q(m)]),
         (r'slot\.actions\.insert\(id,action\)', ['OSlotInsertAction']),
-        (r'%s\.insert\(slot\)' % arms['Vacant'][0], ['OPlaceInsert'])])
-    pre = expect(src, 'register_unchecked_impl', ns[:mi], [
+        (r'\w+\.insert\(slot\)', ['OPlaceInsert']),
+    ]
+    body_shapes = [
         (r'let globals=GlobalData::ensure\(\)', ['OEnsureGlobals']),
         (r'let action=Arc::from\(action\)', ['OArcFromAction']),
         (r'let mut lock=globals\.data\.write\(\)', ['OLockData']),
         (r'let mut sigdata=SignalData::clone\(&lock\)', ['OCloneData']),
         (r'let id=ActionId\(sigdata\.next_id\)', ['OReadNextId']),
-        (r'sigdata\.next_id\+=1', ['OIncrNextId'])])
-    post = expect(src, 'register_unchecked_impl', ns[mi + 1:], [
-        (r'lock\.store\(sigdata\)', ['OPublish']),
-        (r'Ok\(SigId\{signal,action:id\}\)', ['OReturnOkId'])])
+        (r'sigdata\.next_id\+=1', ['OIncrNextId']),
+        (r'lock\.store\(sigdata(?:\.clone\(\))?\)', ['OPublish']),
+        (r'Ok\(SigId\{signal,action:id\}\)', ['OReturnOkId']),
+    ]
+    occ = expect(src, 'register_unchecked_impl/Occupied', [norm(x) for x in stmts(arms['Occupied'][1])], arm_shapes)
+    vac = expect(src, 'register_unchecked_impl/Vacant', [norm(x) for x in stmts(arms['Vacant'][1])], arm_shapes)
+    pre = expect(src, 'register_unchecked_impl', ns[:mi], body_shapes)
+    post = expect(src, 'register_unchecked_impl', ns[mi + 1:], body_shapes)
     D['unchecked_impl'] = (pre, occ, vac, post)
 
     # unregister / unregister_signal publish only `if replace`
@@ -250,10 +257,7 @@ def flag(repo, consts):
         let_action = (r'let action=%s' % clos, ['OCapture RFlag'])
         call_action = (r'%s\(signal,action\)' % callee, ['OCall FRegister'])
         precheck = (r'low_level::signal_name\(signal\)\.ok_or_else\(\|\|Error::from_raw_os_error\(EINVAL\)\)\?', ['OPrecheckSignalName'])
-        shapes = {1: [inline], 2: [let_action, call_action], 3: [precheck, let_action, call_action]}.get(len(ns))
-        if shapes is None:
-            src.err(fn, 'unexpected number of statements', ' ;; '.join(ns))
-        out[fn] = expect(src, fn, ns, shapes)
+        out[fn] = expect(src, fn, ns, [inline, let_action, call_action, precheck])
         params[fn] = a
     if not re.search(r'\buse\s+libc::\{[^}]*\bEINVAL\b', src.s):
         src.err('flag.rs', 'EINVAL is not libc::EINVAL')
@@ -459,7 +463,7 @@ def translate(repo, consts):
     o.append('Inductive res := RAction | RFlag | RFd | RArcPending | RArcWrite | RInstance.')
     o.append('(* one operation per recognised statement part, in evaluation order; bool = followed by `?` *)')
     o.append('Inductive sop :=')
-    o.append('  | OAssertNotForbidden | OCall (f : fn_id) | OCallQ (f : fn_id)')
+    o.append('  | OAssertNotForbidden | OCall (f : fn_id) | OCallQ (f : fn_id) | OCallBind (f : fn_id) | OReturnBound')
     o.append('  | OEnsureGlobals | OArcFromAction | OLockData | OCloneData | OReadNextId | OIncrNextId')
     o.append('  | OAssertInsertFresh | OFallbackLock | ODetect (q : bool) | OFallbackStore | OSlotNew (q : bool)')
     o.append('  | OSlotInsertAction | OPlaceInsert | OPublish | OReturnOkId | OReturnOkUnit | OReturnOkInstance')
